@@ -69,12 +69,24 @@ Proof. intros. eapply undelegate_and_unbond_marks; try eassumption. apply reacha
 Print Assumptions C11_markers_undelegating_unbond.
 
 (* markers (4): the unstaking marker lasts the unbonding period - whatever happens (any operation, by anybody, including
-   the end-block cleanup and epochs), it is still there, unchanged, as long as the block time is before its end time *)
+   the end-block cleanup and epochs), it is still there, unchanged, as long as the block time is before its end time.
+   One exception by design: MsgUnbondConvertAndStake on that lock takes the lock itself out of lockup and stakes the
+   proceeds (see C11_conversion_stays_staked); lock and marker disappear together. *)
 Theorem C11_markers_undelegating_lasts : forall cfg st o st' n id y, wf_cfg cfg -> reachable cfg st ->
   step cfg st o = Ok (st', n) -> s_synths st id = [y] -> y_kind y = Unstaking -> s_now st' < y_end y ->
-  s_synths st' id = [y].
+  s_synths st' id = [y] \/
+  (exists sender v x e, o = OConvert sender id v x e /\ s_locks st' id = None /\ s_synths st' id = []).
 Proof. intros. eapply unstaking_marker_lasts; try eassumption. apply reachable_linv; assumption. Qed.
 Print Assumptions C11_markers_undelegating_lasts.
+
+(* the conversion message does not release anything: the amount it reports is positive and is added to the stake of the
+   chosen validator (as the owner's own, real delegation) *)
+Theorem C11_conversion_stays_staked : forall cfg st sender id v x e st' n, wf_cfg cfg -> reachable cfg st ->
+  step cfg st (OConvert sender id v x e) = Ok (st', n) ->
+  n = x /\ 0 <= x /\ exists val val', s_vals st' v = Some val' /\
+    (s_conn st id = None -> s_vals st v = Some val /\ v_tokens val' = v_tokens val + x).
+Proof. intros. eapply convert_stakes; try eassumption. apply reachable_linv; assumption. Qed.
+Print Assumptions C11_conversion_stays_staked.
 
 (* cannot_unlock_while_delegated: a delegated lock is not unlocking, and BeginUnlocking is refused (by whoever it is
    sent) - the state is left as it was; the same holds for a lock that carries any marker *)
@@ -187,7 +199,7 @@ Definition C11_drift_literal : Prop := forall cfg t0 vals mults sup off bnd ops,
   let st := run cfg (init_state t0 vals mults sup off bnd) ops in
   forall d v, Z.abs (dtok st d v - conn_val cfg st d v) <= conn_cnt st d v.
 
-Definition rf_cfg := mkCfg 100 (P18 / 2) [0] [].
+Definition rf_cfg := mkCfg 100 (P18 / 2) [0] [] [0].
 Definition rf_vals := [(0, mkVal 1000000 (1000000 * P18))].
 Definition rf_ops := [OLock 0 0 3 100; OLock 1 0 3 100; OLock 2 0 3 100;
   ODelegate 0 1 0; ODelegate 1 2 0; ODelegate 2 3 0; OEpoch [(0, MDirect P18)] []; OUndelegate 0 1; OUndelegate 1 2].
@@ -214,7 +226,7 @@ Definition real_burn (st st' : state) (v : Z) : Z :=
 Definition C11_supply_neutral_under_slash : Prop := forall cfg st order v f st', wf_cfg cfg -> reachable cfg st ->
   slash st order v f = Ok st' -> reported_change st st' = - real_burn st st' v.
 
-Definition sl_cfg := mkCfg 100 (P18 / 2) [0] [].
+Definition sl_cfg := mkCfg 100 (P18 / 2) [0] [] [0].
 Definition sl_st := run sl_cfg (init_state 1000 [(0, mkVal 1000000 (1000000 * P18))] [(0, 20 * P18)] 0 0 0)
                         [OLock 0 0 1000000 100; ODelegate 0 1 0].
 Definition sl_check : bool :=
@@ -247,20 +259,21 @@ Qed.
 
 (* non-vacuity: three owners lock 3 shares each (multiplier 1, risk factor 0.5) and delegate to validator 0; an epoch
    refreshes; two undelegate, one of them unbonds; time passes; cleanup; the third is topped up *)
-Definition nv_cfg := mkCfg 100 (P18 / 2) [0] [2].
+Definition nv_cfg := mkCfg 100 (P18 / 2) [0] [2] [0].
 Definition nv_init := init_state 1000 [(0, mkVal 1000000 (1000000 * P18)); (1, mkVal 5 (5 * P18))] [(0, P18)] 7000000 (-500) 1000005.
 Definition nv_ops := [OLock 0 0 3 100; OLock 1 0 3 100; OLock 2 0 3 150;
   ODelegate 0 1 0; ODelegate 1 2 0; ODelegate 2 3 0; OEpoch [(0, MDirect P18)] [];
   OUndelegate 0 1; OUndelegate 1 2; OUnbondLock 0 1; OAdvance 60; OBeginUnlock 2 3; OWithdraw 1; OAdvance 40; OCleanup;
   OTopUp 2 3 7; OUndelegateAndUnbond 2 3 4; OBeginUnlockAll 2; OForceUnlock 2 3; OBeginUnlockPartial 2 3 1;
   OLock 2 0 9 10; OBeginUnlockPartial 2 5 4; OForceUnlock 2 5;
-  OLockTokens 1 0 11 100; OLockTokens 1 0 5 100; OLockAndDelegate 0 0 8 1; OCreateAndDelegate 0 0 20 0].
+  OLockTokens 1 0 11 100; OLockTokens 1 0 5 100; OLockAndDelegate 0 0 8 1; OCreateAndDelegate 0 0 20 0;
+  OConvert 1 2 1 777 true].
 Example C11_nonvacuous :
   wf_cfg nv_cfg /\ reachable nv_cfg (run nv_cfg nv_init nv_ops) /\
   let st := run nv_cfg nv_init nv_ops in
   s_conn st 3 = Some (0, 0) /\ s_synths st 3 = [mkSynth Staking 0 0 0 100] /\
   s_synths st 4 = [mkSynth Unstaking 0 0 1200 100] /\ s_locks st 1 = None /\ s_locks st 5 = None /\
-  s_locks st 6 = Some (mkLock 2 0 4 10 1110) /\ s_locks st 2 = Some (mkLock 1 0 19 100 0) /\
+  s_locks st 6 = Some (mkLock 2 0 4 10 1110) /\ s_locks st 2 = None /\ s_vals st 1 = Some (mkVal 786 (786 * P18)) /\
   s_conn st 7 = Some (0, 1) /\ s_conn st 8 = Some (0, 0) /\
   s_deleg st 0 0 = Some (14 * P18) /\ s_supply st + s_offset st = 7000000 - 500 /\ s_supply st = 7000018 /\
   init_ok [(0, mkVal 1000000 (1000000 * P18)); (1, mkVal 5 (5 * P18))] [(0, P18)] /\
